@@ -489,6 +489,72 @@ Proof.
       eexists; split; [reflexivity|]. apply rep_col. reflexivity.
 Qed.
 
+(* the exact value, for every language that has an array type for the stored numeric type *)
+Theorem denote_exact : forall l nt bo shape elems fp v ig p,
+  In l array_languages -> l <> "python" -> shape <> [] ->
+  Z.of_nat (length elems) = prodZ shape -> sized nt elems ->
+  plan_of l nt shape bo fp v ig = Some p ->
+  denote p (nt, bo) (encode nt bo elems) = Some (DArr (mkA nt (lang_dims l shape) (lang_order l) elems)).
+Proof.
+  intros l nt bo shape elems fp v ig p Hl Hnp Hne Hlen Hsz Hp.
+  unfold plan_of in Hp. destruct (toks_of l nt bo ig) as [t|] eqn:Ht; [|discriminate].
+  destruct (String.eqb l "python" && multi shape) eqn:Hpy; [discriminate|].
+  injection Hp as <-.
+  destruct (String.eqb l "darr") eqn:Ed.
+  { apply String.eqb_eq in Ed. subst l. unfold denote. cbn [p_lang p_toks p_shape fst snd].
+    eval_streq. unfold denote_darr. rewrite (read_n_encode nt bo elems _ Hsz (eq_sym Hlen)).
+    reflexivity. }
+  assert (Hd: l <> "darr") by (intros ->; discriminate Ed).
+  destruct (toks_facts l nt bo t (toks_of_ok l nt bo ig t Hl Hd Ht)) as (Fty & Fen & Fc & Fh & Fs & Ff).
+  unfold denote. cbn [p_lang p_toks p_shape fst snd]. rewrite Ed, Fty, Fen. clear Ht.
+  unfold array_languages in Hl. cbn [In] in Hl.
+  repeat match type of Hl with _ \/ _ => destruct Hl as [<-|Hl] | False => contradiction end;
+    try (exfalso; apply Hd; reflexivity);
+    unfold read_type, workaround in *; eval_streq.
+  - (* R *) rewrite prodZ_rev, (read_n_encode nt bo elems _ Hsz (eq_sym Hlen)).
+    reflexivity.
+  - (* idl *) rewrite prodZ_rev, (read_n_encode nt bo elems _ Hsz (eq_sym Hlen)).
+    reflexivity.
+  - (* julia_ver0 *) rewrite prodZ_rev, (read_n_encode nt bo elems _ Hsz (eq_sym Hlen)).
+    reflexivity.
+  - (* julia_ver1 *) rewrite prodZ_rev, (read_n_encode nt bo elems _ Hsz (eq_sym Hlen)).
+    reflexivity.
+  - (* maple *) rewrite (read_all_encode nt bo elems Hsz).
+    destruct (multi shape) eqn:Hm.
+    + rewrite Hlen, Z.eqb_refl. reflexivity.
+    + destruct (not_multi_single shape Hne Hm) as [d ->]. rewrite prodZ_single in Hlen. rewrite Hlen.
+      reflexivity.
+  - (* mathematica *) rewrite (read_all_encode nt bo elems Hsz), Hlen, Z.eqb_refl.
+    reflexivity.
+  - (* matlab *)
+    destruct (is_complex nt) eqn:Hc.
+    + rewrite Fc, (complex_of_float nt Hc), (Fs eq_refl), prodZ_rev, <- Hlen, Nat2Z.id.
+      rewrite (read_skip_re nt bo elems Hc Hsz), (read_skip_im nt bo elems Hc Hsz), zip_app_halves.
+      reflexivity.
+    + rewrite Fc, Fh. destruct (numtype_eqb nt Float16) eqn:E16.
+      * apply numtype_eqb_eq in E16. subst nt. change (encode Float16 bo elems) with (encode UInt16 bo elems).
+        rewrite prodZ_rev, (read_n_encode UInt16 bo elems _ Hsz (eq_sym Hlen)). cbn [numtype_eqb numtype_code Z.eqb].
+        reflexivity.
+      * rewrite prodZ_rev, (read_n_encode nt bo elems _ Hsz (eq_sym Hlen)).
+        reflexivity.
+  - (* numpy *) rewrite (read_all_encode nt bo elems Hsz).
+    destruct (multi shape) eqn:Hm.
+    + rewrite Hlen, Z.eqb_refl. reflexivity.
+    + destruct (not_multi_single shape Hne Hm) as [d ->]. rewrite prodZ_single in Hlen. rewrite Hlen.
+      reflexivity.
+  - (* numpymemmap *) rewrite (read_n_encode nt bo elems _ Hsz (eq_sym Hlen)).
+    reflexivity.
+  - (* python *) exfalso. apply Hnp. reflexivity.
+  - (* scilab *)
+    rewrite (Ff eq_refl). cbn [negb]. rewrite Fc. destruct (is_complex nt) eqn:Hc.
+    + rewrite (complex_of_float nt Hc), prodZ_rev, prodZ_app, prodZ_single, <- Hlen.
+      rewrite (read_n_complex_flat nt bo elems _ Hc Hsz) by lia.
+      rewrite evens_flat_pairs, odds_flat_pairs, zip_app_halves.
+      reflexivity.
+    + rewrite prodZ_rev, (read_n_encode nt bo elems _ Hsz (eq_sym Hlen)).
+      reflexivity.
+Qed.
+
 (* ---------- path, read-only, language list ---------- *)
 Lemma plan_path : forall l nt shape bo fp v ig p, plan_of l nt shape bo fp v ig = Some p -> p_path p = fp /\ p_var p = v.
 Proof.
